@@ -21,7 +21,7 @@ RULE = ("model: Predicates_MC enumerates every transaction of 1..MaxIn predicate
         "over 7 witness vectors; one REPLAY line per final state (with 4 inputs: those over the 7 core variants; all 10 variants are "
         "model-checked), each replayed into the real code (check_signatures, "
         "check_predicates, check_predicates_async with the dictated completion order, into_checked, estimate_predicates(_async) "
-        "then verification) with the input kinds (coin / message-coin / message-data), memory mode and executor rotated per behaviour. traces: seeded random transactions (6 input kinds, shared witnesses, garbage "
+        "then verification) with the input kinds (coin / message-coin / message-data), memory mode and executor rotated per behaviour. traces: seeded random transactions (5 transaction kinds, 6 input kinds, shared witnesses, garbage "
         "witnesses, signatures over other ids, descriptor and opaque programs, 4 gas schedules, 3 memory modes, lazy and threaded "
         "executors) plus every single-field mutation of accepted transactions. distinct_nontrivial = distinct (abstract "
         "transaction, mode, completion order) behaviours replayed + distinct (event kind, verdict, sub-case) tuples of the traces, "
@@ -39,11 +39,12 @@ MANIFEST = {
                 text="Leg M: TLC checks AcceptedImpliesAuthorised, AuthorisedImpliesAccepted, VerdictOrderIndependent, "
                      "SequentialEqualsParallel (verdict and total gas), EstimateThenVerifyOk, TamperRejected and the soundness of the "
                      "recovery cache on every interleaving. Leg R: each final state (abstract transaction, completion order, predicted "
-                     "signature verdict / predicate verdict / total gas / per-input estimated gas) is built as a real Script "
-                     "transaction (secp256k1 keys, shared or foreign witnesses, predicate byte code assembled from the descriptor, "
+                     "signature verdict / predicate verdict / total gas / per-input estimated gas) is built as a real "
+                     "transaction of a rotating kind (Script, Create, Blob, Upload, Upgrade; secp256k1 keys, shared or foreign witnesses, predicate byte code assembled from the descriptor, "
                      "owner = predicate root or a one-bit neighbour, gas schedule configured as the model's) and run through "
                      "FormatValidityChecks::check_signatures, Checked::check_signatures, predicates::check_predicates, "
-                     "check_predicates_async, into_checked(_reusable_memory), estimate_predicates(_async) followed by verification; "
+                     "check_predicates_async (typed and through the Checked<Transaction> wrapper), into_checked(_reusable_memory), "
+                     "estimate_predicates(_async) followed by verification; "
                      "verdicts and gas are compared with TLC's, and three signed-content mutations of every accepted transaction "
                      "must fail signature checking. Leg T: seeded random transactions over all six spendable input kinds plus contract "
                      "inputs; the trace specification recomputes key addresses (SHA-256 of the public key), predicate addresses "
@@ -56,7 +57,8 @@ MANIFEST = {
                      "signatures (a signature recovers to its signer over the signed id and to nobody otherwise; C16/C17 cover the "
                      "primitive). Predicate programs: a descriptor family (NOOP prefix, counted loop, six endings) whose outcome the "
                      "specification defines, and random straight-line programs whose outcome is measured once and must then be "
-                     "consistent across transactions, modes, orders, memories and declared gas +-1. Script transactions only. The "
+                     "consistent across transactions, modes, orders, memories and declared gas +-1. Message-data and contract inputs occur in "
+                     "Script transactions only (the other kinds forbid them). The "
                      "global (per-transaction) estimation budget and max_gas_per_tx rejection are outside the property and kept "
                      "ample. Which error variant is returned is diagnostic only. Read literally, EstimateThenVerifyOk is "
                      "contradicted by design of the code (estimation never judges the predicate result or the owner): reported "
@@ -136,10 +138,10 @@ def _trace_keys(events):
             part = e.get("part")
         elif ev == "Tx":
             npred = len([x for x in e["inputs"] if x["k"] == "pred"])
-            keys.add(("Tx", tuple(sorted((x["k"], x.get("c")) for x in e["inputs"])), len(e["wits"])))
+            keys.add(("Tx", e.get("kind"), tuple(sorted((x["k"], x.get("c")) for x in e["inputs"])), len(e["wits"])))
         elif ev == "Mutate":
             keys.add((ev, e.get("sig_ok"), e.get("at"), e.get("kind"), e.get("field")))
-        elif ev in ("CheckPred", "Estimate", "IntoChecked", "CheckSig"):
+        elif ev in ("CheckPred", "CheckPredV", "Estimate", "IntoChecked", "CheckSig"):
             keys.add((ev, e.get("ok"), e.get("mode"), e.get("mem"), e.get("exec"), e.get("via"), e.get("after"), npred, part))
     return keys
 
